@@ -38,7 +38,7 @@ prop("C17", "TestC17", "exploration",
      "text-vs-encoded agreement laws. The finite part is complete, so for it the verdict is a decision, not a sample.",
      "Oracle = NCBI transl_table=1 string and IUPAC set table typed in independently of gofasta's tables.",
      "bounded-exhaustive enumeration + property-based testing (rapid) against an independent reference model",
-     "codons: all 15^3 enumerated, non-trivial = contains an ambiguity code; characters: all 32 accepted enumerated; strings: rapid, "
+     "codon sequences: every codon preceded/followed by 8 followers (enumerated) and rapid sequences of 2..8 codons mixing resolvable-ambiguous, plain and untranslatable ones; codons: all 15^3 enumerated, non-trivial = contains an ambiguity code; characters: all 32 accepted enumerated; strings: rapid, "
      "length 0..40 over the 32 accepted characters, non-trivial = length >= 2; distinct = hash of the case",
      q, t, required_labels=["codon:ambiguous-resolvable", "char", "string:len>=2"],
      exhaustive_note="all 15^3 codons x {lenient, strict, dictionary}; all 32 accepted + 95 rejected ASCII characters")
@@ -51,7 +51,7 @@ prop("C03", "TestC03", "exploration",
      "Oracle = IUPAC base-set table written from the statement; output compared byte for byte (header, row order, item order, upper case).",
      "bounded-exhaustive enumeration + property-based testing (rapid) against an independent reference model",
      "rapid: reference and 1..8 records over ACGTRYSWKMBDHVN-? (70% A/C/G/T), two thirds of records derived from the reference with 0..4 "
-     "edits; non-trivial = some reported SNP involves a non-A/C/G/T symbol, or --hard-gaps with a '-' column; distinct = hash of the case",
+     "size classes: 4% of cases have 60..140 records, 2% are 4095..9000 columns wide; 1 in 30 also runs the binary; edits; non-trivial = some reported SNP involves a non-A/C/G/T symbol, or --hard-gaps with a '-' column; distinct = hash of the case",
      q, t, need_bin=True, required_labels=["snp-with-ambiguity-code", "hardgap-column", "wrapped", "crlf"],
      exhaustive_note="17x17 symbol pairs x {soft,hard gaps} x 4 case combinations x 3 columns")
 
@@ -64,7 +64,7 @@ prop("C06", "TestC06", "exploration",
      "validity predicate (sorted within 1e-9, no omitted target closer than the last returned, exact tie-breaks for bit-identical tuples).",
      "Oracle distances are the C07 definitions; completeness is 12/|set| per symbol as documented. Undefined-distance targets may follow defined ones but never take their slots.",
      "property-based testing (rapid) against a reference total order / validity predicate",
-     "1..3 queries, 1..12 (one third of cases 13..48, mostly exact copies) targets of width 6..30 derived from one balanced base; non-trivial = tie at the K boundary, completeness "
+     "one case in 8 uses block-sized widths (64, 65, 127, 128, ... 320) with unit-periodic targets wrapped at 60..80 columns and long masked stretches in the query; 1 in 20 also runs the binary incl. -d as a command-line string; 1..3 queries, 1..12 (one third of cases 13..48, mostly exact copies) targets of width 6..30 derived from one balanced base; non-trivial = tie at the K boundary, completeness "
      "tie-break inside the list, or an undefined-distance target present; distinct = hash of the case",
      q, t, need_bin=True, required_labels=["tie-at-boundary", "boundary-tie-broken-by-completeness", "boundary-tie-broken-by-file-order", "undefined-target-present", "mode:plain", "mode:n", "mode:d", "mode:nd", "table", "targets>12"])
 
@@ -77,7 +77,7 @@ prop("C07", "TestC07", "exploration",
      "(files swapped), raw in [0,1], zero for identical unambiguous sequences, and the SNP/distance columns of plain closest are checked on the same cases.",
      "tn93 asserted only where the oracle's log arguments are > 0.02; frequencies from the target's A/C/G/T counts as the statement says.",
      "bounded-exhaustive enumeration + property-based testing (rapid) against independent distance definitions",
-     "non-trivial = a pair with an ambiguous column, a transition and a transversion; distinct = hash of the case",
+     "one case in 8 uses block-sized widths (64 ... 320, 4096, 4097) with masked stretches of 20..90 columns in the query and wrapped targets; non-trivial = a pair with an ambiguous column, a transition and a transversion; distinct = hash of the case",
      q, t, required_labels=["measure:raw", "measure:snp", "measure:tn93", "tn93:P1,P2,Q>0", "identical-unambiguous"],
      exhaustive_note="17x17 symbol pairs x 2 contexts x 3 measures")
 
@@ -89,7 +89,7 @@ prop("C10", "TestC10", "exploration",
      "reference), ranges must be maximal and ascending, counts must match, and the whole text must equal the model's rendering.",
      "Oracle written from the statement; both directions (nothing missing, nothing extra) because every column is classified.",
      "property-based testing (rapid): reconstruction round-trip + reference model",
-     "width 1..40 (thorough 200), 1..6 records; non-trivial = a row with >= 2 ambiguity ranges and >= 1 SNP; distinct = hash of the case",
+     "size classes: 4% with 70..140 records, 2% 4095..8193 columns wide, 1 in 8 medium width 64..400 with sparse reference ambiguity and reference-identical records; 1 in 30 also runs the binary; width 1..40 (thorough 200), 1..6 records; non-trivial = a row with >= 2 ambiguity ranges and >= 1 SNP; distinct = hash of the case",
      q, t, need_bin=True, required_labels=["range-at-start", "range-at-end", "all-ambiguous", "ranges-one-base-apart", "range-length-1"])
 
 q, t = tiers(8, 8000, 16, 60000, floor_q=4000, floor_t=40000)
@@ -106,7 +106,7 @@ prop("C16", "TestC16", "exploration",
      "through the same oracle, seeded with the hostile constants.",
      "Plain-text reader is not required to reject non-IUPAC symbols; blank lines, ID-less headers, all-empty records and over-long lines may be accepted or rejected but must not crash.",
      "property-based testing (rapid) with structured mutation + native coverage-guided fuzzing (go test -fuzz), specification-parser oracle and differential agreement between readers",
-     "non-trivial: layout cases combining >= 2 of {wrapped, lower case, CRLF, no final newline, blank line}; corrupted cases with >= 2 records "
+     "plus an enumerated line-length boundary sweep (single-line records of length m*1024-2..+1 up to 66 KiB, thorough m*256; LF and CRLF) and unit-periodic wide records wrapped at the unit length; non-trivial: layout cases combining >= 2 of {wrapped, lower case, CRLF, no final newline, blank line}; corrupted cases with >= 2 records "
      "or a must-reject verdict; distinct = hash of the byte stream + kind",
      q, t, required_labels=["kind:layout", "kind:blank", "kind:corrupt", "spec:accept", "spec:reject", "spec:free"])
 
@@ -120,7 +120,7 @@ prop("C01", "TestC01", "exploration",
      "text is compared with a column-by-column projection model (base > deletion > nothing, two letters => N, flank rule, window, wrap).",
      "Model written from the statement; records without an aligned base, spans beyond LN, non-contiguous query names and SEQ '*' on primary records are not generated (undefined by the statement).",
      "property-based testing (rapid) against an independent alignment-projection model",
-     "non-trivial = some CIGAR has I/D/N/S/H/P, or a query has >= 2 records, or a noise record is interleaved; distinct = hash of the case",
+     "size classes: 1 case in 60 has a 600..9000 nt reference with operators of length 255..8193; 1 in 700 has 300..8300 records; 1 in 20 also runs the binary (cliAgree); non-trivial = some CIGAR has I/D/N/S/H/P, or a query has >= 2 records, or a noise record is interleaved; distinct = hash of the case",
      q, t, need_bin=True, required_labels=["op:I", "op:D", "op:N", "op:S", "op:H", "op:P", "op:=", "op:X", "leading-D", "trailing-D", "adjacent-I/D", "overlapping-records",
                             "disjoint-records", "conflicting-bases", "noise:unmapped", "noise:secondary", "pad", "window", "wrap", "threads>1", "pos=1", "ends-at-L"])
 
@@ -134,7 +134,7 @@ prop("C02", "TestC02", "exploration",
      "with the reference-gap columns deleted must equal gofasta's own `toMultiAlign --pad` row (cross-command relation on real outputs).",
      "Overlapping records that contain the same insertion are not generated (no single answer); record order on stdout with threads>1 is left to C12 (compared as a multiset of per-query blocks).",
      "property-based testing (rapid) against an independent alignment-projection model + metamorphic relation toPairAlign vs toMultiAlign --pad",
-     "non-trivial = a query with >= 1 insertion; distinct = hash of the case; label multi-record+insertion counts the deep class",
+     "size classes as C01 (long operators 1 in 80); 1 case in 20 also runs the binary with -o stdout; non-trivial = a query with >= 1 insertion; distinct = hash of the case; label multi-record+insertion counts the deep class",
      q, t, need_bin=True, required_labels=["query-with-insertion", "multi-record+insertion", "several-insertions", "insertion-before-first-base", "insertion-after-last-base",
                             "skip-insertions", "omit-reference", "window", "wrap", "stdout", "threads>1"])
 
@@ -157,7 +157,7 @@ prop("C04", "TestC04", "exploration",
      "without --append-snps equals the rows with the lists removed; rows are one per query in input order. Indels are checked as in C05.",
      "Reference ambiguity codes are kept outside features and GenBank CDS always carry /gene (documented refusals otherwise); insertions inside a codon are ignored for translation as documented; record order inside a row is not asserted here.",
      "property-based testing (rapid) against an independent reference model (base sets + NCBI table 1 + feature geometry)",
-     VAR_GEN + "; non-trivial = a query with >= 1 expected aa record and >= 1 nucleotide difference; distinct = hash of the case",
+     VAR_GEN + "an IUPAC-codon class (YTR, MGR, CTN, ... on the feature's strand), coordinate-sorted GFF rows, 4% of MSA cases with 60..90 rows; 1 in 20 also runs the binary; ; non-trivial = a query with >= 1 expected aa record and >= 1 nucleotide difference; distinct = hash of the case",
      q, t, need_bin=True, required_labels=["format:gb", "format:gff", "form:msa", "form:sam", "feat:reverse", "feat:joined", "feat:reverse-joined", "feat:overlapping",
                             "feat:unnamed", "feat:codon_start>1", "aa-in-reverse-feature", "aa-codon-spans-join", "aa-from-iupac-codon",
                             "snp-in-unnamed-feature", "codon-broken-by-gap", "gff:spec-phases", "row:aa", "row:nuc"])
@@ -171,7 +171,7 @@ prop("C05", "TestC05", "exploration",
      "re-run alone with all columns that are gaps in both rows removed and must give the same mutation list.",
      "Oracle from the statement; the same rows are also checked for C04's nuc/aa rules.",
      "property-based testing (rapid): reference-coordinate model + metamorphic relation (remove both-gap columns)",
-     VAR_GEN + "; non-trivial = >= 2 reference-gap runs with an indel, or an indel right of an earlier gap column; distinct = hash of the case",
+     VAR_GEN + "as C04; ; non-trivial = >= 2 reference-gap runs with an indel, or an indel right of an earlier gap column; distinct = hash of the case",
      q, t, need_bin=True, required_labels=["indel-after-earlier-gap-column", "insertion-abutting-end", "insertion-abutting-start", "deletion-abutting-start",
                             "deletion-abutting-end", "deletion-spanning-insertion-slot", "both-gap-columns", "form:sam", "form:msa"])
 
@@ -194,7 +194,7 @@ prop("C13", "TestC13", "exploration",
      "Inputs are built so mutations recur (duplicated rows / record sets); T is 0, 1, c/n exactly (equal to an occurring frequency), or c/n +- 1e-6.",
      "Oracle recomputed from gofasta's own per-sequence output, as the statement defines it; the reference record is excluded by the per-sequence command itself.",
      "property-based testing (rapid): metamorphic relation aggregate == count(per-sequence)",
-     "C03 generator (snps) and the C04 generator (variants, msa and sam form) with duplicated sequences; non-trivial = >= 2 sequences, some mutation with "
+     "one third of the cases have 20..130 sequences (duplicates); besides the drawn threshold every occurring frequency k/n (up to 8) is tried as the threshold; the cliAgree arm passes --threshold as a string; C03 generator (snps) and the C04 generator (variants, msa and sam form) with duplicated sequences; non-trivial = >= 2 sequences, some mutation with "
      "0 < frequency < 1 and the threshold excluding something; distinct = hash of the case",
      q, t, need_bin=True, required_labels=["kind:snps", "kind:variants", "form:msa", "form:sam", "threshold-binding", "partial-frequency", "threshold-equals-a-frequency-candidate"])
 
@@ -206,7 +206,7 @@ prop("C14", "TestC14", "exploration",
      "mutation strings must be equal and each row ordered by position (order inside one position left free, as the statement says).",
      "Only layouts expressible in both formats are generated (every feature named; same strand within a feature).",
      "property-based testing (rapid): differential GenBank vs GFF3 rendering of one model",
-     VAR_GEN + "; non-trivial = an aa call inside a reverse or joined feature; distinct = hash of the case",
+     VAR_GEN + "GFF rows optionally coordinate-sorted (rows of one ID not adjacent); ; non-trivial = an aa call inside a reverse or joined feature; distinct = hash of the case",
      q, t, required_labels=["feat:reverse", "feat:joined", "feat:reverse-joined", "gff:spec-phases", "aa-call-in-reverse-or-joined-feature", "form:msa", "form:sam"])
 
 q, t = tiers(8, 1200, 16, 10000, floor_q=500, floor_t=5000, q_timeout=600)
@@ -239,7 +239,7 @@ prop("C08", "TestC08", "exploration",
      "requested sizes in 0..3 per bin x --no-fill (130k allocation points; all in thorough, 1/8 sample in quick) realised with synthetic targets.",
      "Where the specification admits several outputs (fill order, remainder of --size-total) the oracle is a validity predicate; -1 'easter egg' sizes are not generated.",
      "property-based testing (rapid) + bounded-exhaustive enumeration against a sequence-level reference model / validity predicate",
-     UD_GEN + "; non-trivial = a bin is short while another has spare (fill happens), or a threshold binds, or a multiple hit changes a distance, or dist-push cuts; distinct = hash of the case",
+     UD_GEN + "one case in 8 is 66..240 columns wide with periodic ambiguity tracts; one in 3 gives query and/or target as updown-list CSV; 1 in 20 also runs the binary; ; non-trivial = a bin is short while another has spare (fill happens), or a threshold binds, or a multiple hit changes a distance, or dist-push cuts; distinct = hash of the case",
      q, t, need_bin=True, required_labels=["fill-happens", "no-fill", "size-total", "size-per-bin", "dist-limits", "dist-limit-cuts", "dist-push", "dist-push-cuts",
                             "pair-threshold-binds", "target-threshold-binds", "multiple-hit", "ignore", "table"],
      exhaustive_note="allocation arithmetic: supplies 0..3^4 x requested 0..3^4 x no-fill (thorough: all points; quick: 1/8 sample rotated by seed)")
@@ -251,7 +251,7 @@ prop("C09", "TestC09", "exploration",
      "and must have exactly one row per query in query-file order (list form) / contiguous ordered blocks (table form).",
      "Same generator and option space as C08, with >= 2 queries in ~80% of cases.",
      "property-based testing (rapid): differential between input formats",
-     UD_GEN + "; non-trivial = >= 2 queries and some non-empty bin; distinct = hash of the case",
+     UD_GEN + "IUPAC codes in the reference in a third of the cases; wide alignments as C08; 1 case in 2500 is 11-13k columns wide with rows beyond 64 KiB; ; non-trivial = >= 2 queries and some non-empty bin; distinct = hash of the case",
      q, t, required_labels=["queries>=2", "table", "dist-push"])
 
 q, t = tiers(8, 300, 16, 3000, floor_q=300, floor_t=3000, q_timeout=600)
@@ -265,7 +265,7 @@ prop("C19", "TestC19", "fault_enumeration",
      "Fault points are enumerated completely per input; inputs are generated. Close() errors are not injected (os.File writes are unbuffered, so ENOSPC surfaces on Write).",
      "fault injection: exhaustive enumeration of write-fault points per generated input (rapid), in-process failing io.Writer + process-level /dev/full",
      "inputs from the C03/C04/C01/C06/C08 generators (>= 3 output rows for snps); coverage.evaluations counts injected-fault executions (coverage.cases = generated inputs); "
-     "non-trivial = an input whose run performs >= 2 writes (faults after the header), and every process-level /dev/full run; distinct = hash of the case",
+     "one case in 10 is a large-output run (2500..5000 records, output beyond 64 KiB) whose fault points are the first/last six writes, the quartiles and 8 drawn positions; non-trivial = an input whose run performs >= 2 writes (faults after the header), and every process-level /dev/full run; distinct = hash of the case",
      q, t, need_bin=True,
      required_labels=["entry:snps", "entry:snps-aggregate", "entry:variants", "entry:variants-aggregate", "entry:sam-variants", "entry:sam-variants-aggregate",
                       "entry:toMultiAlign", "entry:toMultiAlign-wrap", "entry:closest", "entry:closestN", "entry:closestN-table", "entry:updown-list",
@@ -303,7 +303,7 @@ prop("C12", "TestC12", "exploration",
      "the driver then replays to confirm and report.",
      "Explores the interleavings that jitter at the seven stage boundaries, thread counts and GOMAXPROCS can produce, plus the race detector; it cannot enumerate all interleavings nor prove race freedom. A green run means no divergence in the N perturbed schedules listed in the evidence (coverage.counters.runs / runs_with_completion_order_inversion). `sam indels` is out of scope.",
      "property-based testing (rapid): metamorphic relation output(configuration) == output(baseline) under seeded schedule perturbation; race detector in the thorough tier",
-     "inputs from the C01/C04/C03/C06/C08 generators padded to >= 8 records; non-trivial = a run in which the hook observed a completion-order inversion, or threads > 1 with >= 8 records; distinct = hash of the case (input + configurations)",
+     "one SAM case in 5 has 300..700 records and one in 5 operators longer than 256/4096; one configuration in 3 holds one record's worker back 1-8 ms (slow-record hook); one case in 4 runs fresh processes of the binary instead of the library; inputs from the C01/C04/C03/C06/C08 generators padded to >= 8 records; non-trivial = a run in which the hook observed a completion-order inversion, or threads > 1 with >= 8 records; distinct = hash of the case (input + configurations)",
      q, t, need_bin=True, required_labels=["cmd:toMultiAlign", "cmd:toPairAlign", "cmd:toPairAlign-stdout", "cmd:sam-variants", "cmd:variants", "cmd:snps", "cmd:closest", "cmd:closestN",
                             "cmd:updown-list", "cmd:topranking", "inversion-observed"])
 
